@@ -18,9 +18,9 @@ from framework import TranslateError  # noqa: F401
 PID = "C13"
 PROPS_FILE = "Props/C13.v"
 GEN_FILES = ["Gen/C13_shape.v"]
-MODEL_FILES = ["Model/C13_json.v", "Model/C13_config.v"]
+MODEL_FILES = ["Model/C13_json.v", "Model/C13_config.v", "Model/C13_literal.v", "Model/C13_text.v"]
 ALLOWED_AXIOMS: list[str] = []
-CASE_HEADER = ("From Coq Require Import String List.\nFrom LK Require Import Lib.StrDict Gen.C13_shape Model.C13_json Model.C13_config.\n"
+CASE_HEADER = ("From Coq Require Import String List.\nFrom LK Require Import Lib.StrDict Gen.C13_shape Model.C13_json Model.C13_config Model.C13_literal Model.C13_text.\n"
                "Import ListNotations.\nOpen Scope string_scope.")
 SHARD = 16
 SEARCH_CASES = 0     # the generic one-case-at-a-time search would start five interpreters per case; see search()
@@ -35,17 +35,30 @@ TRUSTED = [
     "model_dump_json() and model_dump_json(exclude_none=True) character for character, in five interpreter processes with different PYTHONHASHSEED",
     "number/bool/null tokens inside settings and literals are rendered by pydantic_core.to_json (library contract); pickle/base85 text of non-JSON "
     "literals and uuid5 literal names are taken from the implementation; pydantic's parser (JSON text -> PipelineConfig) is exercised, not modelled",
+    "pickle_contract (Props/C13.v): the base85 pickle text of a literal value can be loaded again to the same value (pickle / base64 library contract); "
+    "the description of a literal's type structure handed to the model (harness/props/c13.py cpyv) and the pickle text are computed by the harness from "
+    "the case description, not taken from lenskit; the form of PipelineLiteral.represent / decode / _json_exact is pinned by the shape extractor "
+    "(literal_json_iff_exact; any other form fails closed)",
     "equality of run results of the original, the clone and the reloaded pipelines is checked by the oracle on generated inputs, not proved "
     "(the theorems show the rebuilt node table, wiring, aliases and default are equal)",
 ]
 ASSUMPTIONS = [
     "strings (node names, aliases, pipeline name/version, string settings) contain no double quote, backslash or control character",
-    "literal values are JSON values or tuples/objects whose pickle does not depend on the process (no sets of strings)",
+    "literal values: anything whose pickle does not depend on the process (sets hold numbers, not strings: lenskit documents that the hash of a pickled "
+    "literal is only as stable as the pickle byte stream); strings inside literals need no JSON escaping",
     "components are importable functions or Component classes whose behaviour before training is determined by class and dumped settings",
     "unchecked builder calls are used as documented: literal names are fresh, replace_component names an existing component, "
     "default connections point to member nodes",
 ]
-RULE = ("builder histories: the same PipelineBuilder is observed (config_hash / meta / build_config / build, then hash, built pipeline and its clone) at 2-5 "
+RULE = ("literal values as a generated dimension: None, bools, ints (also beyond 2**63), floats (-0.0, subnormal, 1e308, nan, +-inf), strings, lists, tuples, "
+        "nested tuples, dicts with str / int / bool / None / float / tuple keys, OrderedDict, NumPy arrays (int64/int32/float64/float32/bool, 1-D, 2-D, empty, "
+        "with nan) and scalars, sets, frozensets, bytes, objects, str / IntEnum subclass instances; a quarter of them drawn as an equal-looking value of ANOTHER "
+        "type of a literal already in the graph (tuple<->list, 1<->True<->1.0<->numpy.int64(1), 0.0<->-0.0, key 1<->key '1', array<->list, set<->frozenset); wired "
+        "(3/5 of their parameters) into components whose results render the type of every part of what they receive (describe, describe2, lookup, extend, "
+        "total); every reload route compared on run results, hash, text and warning: clone, from_config(configuration object), from_config(json.loads(text)), "
+        "from_config(model_validate_json(text)), four other processes; each literal node must yield the value the caller passed; a literal declared JSON must "
+        "mean, as JSON text, the value the pipeline holds; the same history with one literal replaced by a value of another type must hash differently; "
+        "builder histories: the same PipelineBuilder is observed (config_hash / meta / build_config / build, then hash, built pipeline and its clone) at 2-5 "
         "points with edits of every kind in between (name, version, default node, aliases, connections, replaced components and settings, literals, default "
         "connections), and a builder loaded from the document is edited once more and built; generated graphs: 1-4 inputs (0-4 types each incl. None, generics, unions, nested classes), 0-2 named literals, 1-7 components over 17 "
         "importable functions/classes (class+dict, instance, plain function, non-Component callable; settings incl. alias-validated fields, nulls, "
@@ -65,8 +78,12 @@ SEEDS = ["0", "1", "2", "3", "random"]
 
 SIGS = {"const7": [], "inc": ["x"], "neg": ["x"], "add": ["x", "y"], "mix3": ["a", "b", "c"], "user_item": ["user", "item"],
         "opt_first": ["x", "y"], "lazy_pick": ["x", "y"], "anyval": ["v"], "twice": ["x"], "first_of": ["primary", "fallback"],
-        "Scale": ["x"], "Affine": ["x", "y"], "Aliased": ["user"], "NoSettings": ["x"], "Shift": ["x"], "Bare": ["x"]}
-CODES = {k: "vcomp:" + k for k in SIGS}
+        "Scale": ["x"], "Affine": ["x", "y"], "Aliased": ["user"], "NoSettings": ["x"], "Shift": ["x"], "Bare": ["x"],
+        # results depend on the TYPE as well as the value of what they are given (harness/c13_lit.py)
+        "describe": ["v"], "describe2": ["a", "b"], "lookup": ["table", "key"], "extend": ["xs", "x"], "total": ["xs"]}
+TYPE_SENSITIVE = {"describe": {"v": None, }, "describe2": {"a": None, "b": None}, "lookup": {"table": "map"}, "extend": {"xs": "seq"},
+                  "total": {"xs": "seq"}}
+CODES = {k: ("c13_lit:" if k in TYPE_SENSITIVE else "vcomp:") + k for k in SIGS}
 CODES.update({"twice": "vcomp:Box.twice", "Shift": "vcomp:Box.Shift", "first_of": "lenskit.pipeline.components:fallback_on_none"})
 STYLES = {k: ["fn"] for k in SIGS}
 STYLES.update({"Scale": ["class", "instance"], "Affine": ["class", "instance"], "Aliased": ["class", "instance"],
@@ -76,8 +93,134 @@ TYPE_NAMES = {"int": ["int"], "str": ["str"], "float": ["float"], "bool": ["bool
               "ItemList": ["lenskit.data.items.ItemList"], "ndarray": ["numpy.ndarray"], "bytes": ["bytes"]}
 FLOATS = [0.0, 0.5, 2.5, 1e-7, 1e22, 3.0, -1.25, 0.1]
 STRS = ["s", "lab", "é", "a b", "x-1", ""]
-LIT_VALUES = [5, 7, 0, -3, 2.5, 1e-7, "s", "héllo", None, True, False, [1, 2, 3], [1, [2.5, "s", None], True], {"x": None, "y": [1, 2.5]},
-              {"b": 1, "a": {"z": None}}, [], {}, {"__tuple__": [1, 2]}, {"__token__": 4}]
+
+# ---------------------------------------------------------------------------------------------
+# literal values as a generated dimension (encoded; harness/c13_lit.py turns them into Python values)
+# ---------------------------------------------------------------------------------------------
+
+L_INTS = [0, 1, 2, 7, -3, 5, 2 ** 31, 2 ** 53 + 1, 2 ** 70, -2 ** 63 - 1]
+L_FLOATS = [0.0, -0.0, 0.5, 2.5, 1.0, 1e-7, 1e22, 1e308, 5e-324, 0.1, -1.25]
+L_STRS = ["s", "héllo", "", "a b", "1", "None"]
+L_KEYS = ["a", "b", "x", "é", "1", "2", "k y"]
+
+
+def gen_scalar(rng):
+    k = rng.weighted([("none", 1), ("bool", 2), ("int", 4), ("float", 4), ("nonfinite", 1), ("str", 3)])
+    if k == "none":
+        return None
+    if k == "bool":
+        return rng.chance(1, 2)
+    if k == "int":
+        return rng.choice(L_INTS)
+    if k == "float":
+        return rng.choice(L_FLOATS)
+    if k == "nonfinite":
+        return {"__float__": rng.choice(["nan", "inf", "-inf"])}
+    return rng.choice(L_STRS)
+
+
+def gen_lit(rng, pool=None, family=None, depth=0):
+    """an encoded literal value: None, bools, ints (also beyond 2**63), floats (-0.0, subnormal, huge, non-finite), strings,
+    lists, tuples, nested tuples, dicts with str / int / bool / None / float / tuple keys, NumPy arrays and scalars, sets,
+    bytes, objects, instances of subclasses of the basic types; `pool` (the literals already used in this graph) makes
+    equal-looking values of different types meet in one graph"""
+    import c13_lit
+    if pool and depth == 0 and family is None and rng.chance(1, 4):
+        sibs = c13_lit.siblings(rng.choice(pool))
+        if sibs:
+            v = rng.choice(sibs)
+            pool.append(v)
+            return v
+    if depth >= 2:
+        return gen_scalar(rng)
+
+    def elems(lo=0, hi=3):
+        return [gen_lit(rng, None, None, depth + 1) for _ in range(rng.randint(lo, hi))]
+    if family == "seq":
+        kinds = [("list", 3), ("tuple", 4), ("np", 2), ("set", 1), ("frozenset", 1)]
+    elif family == "map":
+        kinds = [("dict", 3), ("idict", 4), ("odict", 1)]
+    elif depth == 0:
+        kinds = [("scalar", 6), ("list", 3), ("tuple", 3), ("dict", 3), ("idict", 2), ("np", 2), ("nps", 2), ("set", 1), ("frozenset", 1),
+                 ("bytes", 1), ("token", 1), ("odict", 1), ("strs", 1), ("inte", 1)]
+    else:
+        kinds = [("scalar", 8), ("list", 1), ("tuple", 2), ("dict", 1), ("nps", 1), ("idict", 1)]
+    k = rng.weighted(kinds)
+    if k == "scalar":
+        v = gen_scalar(rng)
+    elif k == "list":
+        v = elems()
+    elif k == "tuple":
+        v = {"__tuple__": elems()}
+    elif k == "dict":
+        v = {key: gen_lit(rng, None, None, depth + 1) for key in rng.sample(L_KEYS, rng.randint(0, 3))}
+    elif k == "odict":
+        v = {"__odict__": [[key, gen_lit(rng, None, None, depth + 1)] for key in rng.sample(L_KEYS, rng.randint(0, 2))]}
+    elif k == "idict":
+        fam = rng.weighted([("int", 4), ("bool", 1), ("mixed", 2)])
+        keys = {"int": [0, 1, 2, 7, -3, 10], "bool": [True, False], "mixed": [None, 2.5, {"__tuple__": [1, 2]}, 3, "3"]}[fam]
+        v = {"__idict__": [[key, gen_lit(rng, None, None, depth + 1)] for key in rng.sample(keys, rng.randint(1, min(3, len(keys))))]}
+    elif k == "np":
+        dt = rng.choice(["int64", "float64", "float32", "bool", "int32"])
+        def cell():
+            if dt == "bool":
+                return rng.chance(1, 2)
+            if dt.startswith("int"):
+                return rng.choice([0, 1, 2, 7, -3])
+            return rng.choice([0.0, -0.0, 0.5, 2.5, {"__float__": "nan"}, 1.0])
+        v = {"__np__": [dt, [[cell(), cell()], [cell(), cell()]] if rng.chance(1, 4) else [cell() for _ in range(rng.randint(0, 4))]]}
+    elif k == "nps":
+        v = {"__nps__": rng.choice([["float64", 2.5], ["float64", 1.0], ["float64", {"__float__": "nan"}], ["int64", 3], ["int64", 1], ["float32", 0.5],
+                                    ["bool", True], ["bool", False], ["int32", 7]])}
+    elif k in ("set", "frozenset"):
+        v = {"__" + k + "__": rng.sample([0, 1, 2, 7, -3, 2.5, 100], rng.randint(0, 3))}
+    elif k == "bytes":
+        v = {"__bytes__": rng.choice(["6162", "", "00ff", "31"])}
+    elif k == "token":
+        v = {"__token__": rng.randint(0, 9)}
+    elif k == "strs":
+        v = {"__strs__": rng.choice(L_STRS)}
+    else:
+        v = {"__inte__": rng.choice([1, 2, 7])}
+    if pool is not None and depth == 0:
+        pool.append(v)
+    return v
+
+
+def lit_kind(e):
+    import c13_lit
+    t = c13_lit.tag_of(e)
+    if t is not None:
+        return t.strip("_") + (":" + e[t][0] if t in ("__np__", "__nps__") else "")
+    return type(e).__name__
+
+
+def lit_sites(ops):
+    "every place of a history where a literal value is written: (op index, where, encoded value)"
+    out = []
+    for i, o in enumerate(ops):
+        if o["op"] == "literal":
+            out.append((i, ("value",), o["value"]))
+        elif o["op"] == "defconn" and "lit" in o["target"]:
+            out.append((i, ("target",), o["target"]["lit"]))
+        for j, (p_, t) in enumerate(o.get("ins", []) if o["op"] in ("add", "replace", "connect") else []):
+            if "lit" in t:
+                out.append((i, ("ins", j), t["lit"]))
+    return out
+
+
+def with_lit(ops, site, value):
+    i, where, _ = site
+    ops = [dict(o) for o in ops]
+    o = ops[i]
+    if where == ("value",):
+        o["value"] = value
+    elif where == ("target",):
+        o["target"] = {"lit": value}
+    else:
+        o["ins"] = [list(x) for x in o["ins"]]
+        o["ins"][where[1]] = [o["ins"][where[1]][0], {"lit": value}]
+    return ops
 
 # shipped scorers / rankers and generators of random settings (field -> values)
 SHIPPED_SCORERS = {
@@ -175,6 +318,7 @@ def gen_graph(rng, malformed=False):
     aliases = []
     in_names = rng.sample(["a", "b", "c", "d", "user", "item", "query"], rng.randint(1, 4))
     input_types = {}
+    pool = []           # literal values used so far in this graph (equal-looking values of other types are drawn from it)
     for n in in_names:
         k = rng.weighted([(0, 1), (1, 4), (2, 3), (3, 2), (4, 1)])
         ts = rng.sample(list(TYPE_NAMES), k)
@@ -185,17 +329,19 @@ def gen_graph(rng, malformed=False):
         input_types[n] = ts
     for j in range(rng.weighted([(0, 3), (1, 2), (2, 1)])):
         ln = f"L{j + 1}"
-        ops.append({"op": "literal", "name": ln, "value": rng.choice(LIT_VALUES)})
+        ops.append({"op": "literal", "name": ln, "value": gen_lit(rng, pool)})
         nodes.append(ln)
 
-    def pick_target(exclude=None, lits=True):
-        if lits and rng.chance(1, 6):
-            return {"lit": rng.choice(LIT_VALUES)}
+    def pick_target(exclude=None, lits=True, family="-"):
+        # parameters of the type-sensitive components are mostly given literal values
+        if lits and rng.chance(*((3, 5) if family != "-" else (1, 6))):
+            return {"lit": gen_lit(rng, pool, None if family == "-" else family)}
         cands = [n for n in nodes if n != exclude] or nodes
         return {"node": rng.choice(cands)}
 
     def gen_ins(comp, me, frac=(3, 4)):
-        ins = [[p, pick_target(me)] for p in SIGS[comp] if rng.chance(*frac)]
+        fam = TYPE_SENSITIVE.get(comp, {})
+        ins = [[p, pick_target(me, family=fam.get(p, "-"))] for p in SIGS[comp] if rng.chance(*((9, 10) if comp in TYPE_SENSITIVE else frac))]
         return rng.shuffle(ins)
 
     ncomp = rng.weighted([(1, 1), (2, 2), (3, 3), (4, 3), (5, 2), (7, 1)])
@@ -207,7 +353,7 @@ def gen_graph(rng, malformed=False):
             comps.append((cn, "first_of"))
             nodes.append(cn)
             continue
-        comp = rng.choice([k for k in SIGS if k != "first_of"])
+        comp = rng.choice(sorted(TYPE_SENSITIVE)) if rng.chance(1, 4) else rng.choice([k for k in SIGS if k != "first_of"])
         style = rng.choice(STYLES[comp])
         op = {"op": "add", "name": cn, "comp": comp, "style": style, "ins": gen_ins(comp, cn)}
         if style in ("class", "instance"):
@@ -242,7 +388,7 @@ def gen_graph(rng, malformed=False):
     for _ in range(rng.weighted([(0, 2), (1, 2), (2, 1)])):
         pos = rng.randint(len(in_names), len(ops))
         cands = [o["name"] for o in ops[:pos] if o["op"] in ("input", "literal", "add", "first_of")]
-        tgt = {"node": rng.choice(cands)} if cands and rng.chance(5, 6) else {"lit": rng.choice(LIT_VALUES)}
+        tgt = {"node": rng.choice(cands)} if cands and rng.chance(5, 6) else {"lit": gen_lit(rng, pool)}
         ops.insert(pos, {"op": "defconn", "param": rng.choice(["user", "item", "x", "y", "b", "fallback"]), "target": tgt})
     alias_block = []
     for an in rng.sample(["al1", "rec", "zz", "aa", "é-al"], rng.weighted([(0, 2), (1, 3), (2, 2), (3, 1)])):
@@ -298,7 +444,7 @@ def gen_graph(rng, malformed=False):
                 comps[i] = (cn, nc)
             elif kind == "literal":
                 tail_lits += 1
-                ops.append({"op": "literal", "name": f"LT{tail_lits}", "value": rng.choice(LIT_VALUES)})
+                ops.append({"op": "literal", "name": f"LT{tail_lits}", "value": gen_lit(rng, pool)})
             elif kind == "defconn":
                 ops.append({"op": "defconn", "param": rng.choice(["user", "item", "a", "v", "c"]), "target": {"node": rng.choice(nodes[:n_in])}})
         if rng.chance(1, 2):
@@ -360,6 +506,15 @@ def gen_graph(rng, malformed=False):
                 ai += 1
             ops2.append(o2)
         case["ops2"] = ops2
+        # the same history with ONE literal replaced by an equal-looking value of another type
+        import c13_lit
+        sites = [st for st in lit_sites(ops2) if c13_lit.siblings(st[2])]
+        if sites:
+            st = rng.choice(sites)
+            sib = rng.choice(c13_lit.siblings(st[2]))
+            case["ops3"] = with_lit(ops2, st, sib)
+            case["ops3_change"] = [st[2], sib]
+            case["ops3_site"] = st[0]
     # run inputs
     runs = []
     for _ in range(2):
@@ -373,10 +528,10 @@ def gen_graph(rng, malformed=False):
             elif ts and "int" not in ts and "Token" in ts:
                 r[n] = {"__token__": rng.randint(0, 9)}
             else:
-                r[n] = rng.randint(0, 60)
+                r[n] = rng.choice([0, 1, 2, 7]) if rng.chance(1, 3) else rng.randint(0, 60)
         runs.append(r)
     case["runs"] = runs
-    case["run_nodes"] = [c for c, _ in comps][:4]
+    case["run_nodes"] = ([c for c, k in comps if k in TYPE_SENSITIVE] + [c for c, k in comps if k not in TYPE_SENSITIVE])[:5]
     case["tamper"] = rng.sample(["hash", "setting", "connection", "alias", "default", "name", "version", "drop_hash", "reorder", "literal"],
                                 rng.randint(3, 5))
     return case
@@ -595,9 +750,32 @@ def run_impl(case):
 # ---------------------------------------------------------------------------------------------
 
 
+_INTERN: list = []      # innermost: {text: let-bound name} while a case term is being assembled
+
+
 def cs(s: str) -> str:
-    "Coq string literal of arbitrary text (a double quote is written twice)"
+    """Coq string literal of arbitrary text (a double quote is written twice).  Inside a case term a long text (a whole
+    configuration document) is cut at its object boundaries; every piece is written once, as a byte list bound by a `let`
+    (Model/C13_text.v), and the text is the concatenation of the names -- the many near-identical documents of one case
+    (with / without nulls, without the hash, tampered, observed at several points of a history) share almost all pieces."""
+    if _INTERN and s:
+        # (every string literal costs Coq a fixed ~0.3 ms whatever its length, a name nothing: also the short ones are bound)
+        tab = _INTERN[-1]
+        pieces = _PIECE.split(s) if len(s) >= 200 else [s]
+        out = []
+        for pc in pieces:
+            if not pc:
+                continue
+            if pc not in tab:
+                tab[pc] = f"z_{len(tab)}"
+            out.append(tab[pc])
+        return out[0] if len(out) == 1 else "(" + " ++ ".join(out) + ")%string"
     return '"' + s.replace('"', '""') + '"'
+
+
+import re as _re
+
+_PIECE = _re.compile(r'(?<=[}\]],)(?=")')    # zero-width: after `},` / `],` where a new key starts
 
 
 def in_domain(s: str) -> bool:
@@ -625,6 +803,70 @@ def cjson(v):
     if isinstance(v, dict):
         return "(JObj [" + "; ".join(f"({cname(k)}, {cjson(x)})" for k, x in v.items()) + "])"
     raise OutOfDomain(repr(v))
+
+
+def cpyv(e):
+    "Coq description (Model/C13_literal.v, type pyv) of an encoded literal value: the type of every part is kept"
+    import c13_lit
+    import pydantic_core
+    t = c13_lit.tag_of(e)
+    if t is None:
+        if e is None:
+            return "PNone"
+        if isinstance(e, bool):
+            return f"(PBool {cbool(e)})"
+        if isinstance(e, int):
+            return f"(PInt {cs(str(e))})"
+        if isinstance(e, float):
+            return f"(PFloat {cs(pydantic_core.to_json(e).decode())})"
+        if isinstance(e, str):
+            return f"(PStr {cname(e)})"
+        if isinstance(e, list):
+            return "(PList [" + "; ".join(cpyv(x) for x in e) + "])"
+        return "(PDict [" + "; ".join(f"(PStr {cname(k)}, {cpyv(x)})" for k, x in e.items()) + "])"
+    x = e[t]
+    if t == "__tuple__":
+        return "(PTuple [" + "; ".join(cpyv(y) for y in x) + "])"
+    if t == "__float__":
+        return f"(PFloatNF {cs(x)})"
+    if t == "__idict__":
+        return "(PDict [" + "; ".join(f"({cpyv(k)}, {cpyv(v)})" for k, v in x) + "])"
+    if t == "__odict__":
+        return "(PSub (PDict [" + "; ".join(f"({cpyv(k)}, {cpyv(v)})" for k, v in x) + "]))"
+    if t == "__strs__":
+        return f"(PSub (PStr {cname(x)}))"
+    if t == "__inte__":
+        return f"(PSub (PInt {cs(str(x))}))"
+    if t == "__nps__" and x[0] in ("float64", "bool"):
+        # numpy.float64 is a subclass of float; NumPy's bool type is NAMED bool (what a lax JSON validator looks at)
+        return f"(PSub {cpyv(x[1])})"
+    return f"(POther {cs(t.strip('_') + (':' + x[0] if t in ('__np__', '__nps__') else ''))})"
+
+
+def c_lit_checks(case, obs):
+    """for every literal value the case writes: the entry the implementation represents it by (encoding, value) must be the
+    one the model derives from the TYPE structure of the value (pickle text computed by the harness)"""
+    parts, seen = [], set()
+    for o in [obs["first"]] + list(obs["others"].values()):
+        for opsk in ("ops", "ops2"):
+            for op, r in zip(case.get(opsk) or [], o.get(opsk) or []):
+                if op["op"] == "literal":
+                    vals = [op["value"]]
+                elif op["op"] == "defconn":
+                    vals = [op["target"]["lit"]] if "lit" in op["target"] else []
+                elif op["op"] in ("add", "replace", "connect"):
+                    vals = [t["lit"] for _, t in op["ins"] if "lit" in t]
+                else:
+                    continue
+                for e, l in zip(vals, r.get("lits") or []):
+                    if not l:
+                        continue
+                    sig = json.dumps([e, l["enc"], l["value"], l["pk"]], sort_keys=True)
+                    if sig in seen:
+                        continue
+                    seen.add(sig)
+                    parts.append(f"lit_agree {cs(l['pk'])} {cpyv(e)} {cname(l['enc'])} {cjson(l['value'])}")
+    return parts
 
 
 def cobj(d):
@@ -706,13 +948,26 @@ def c_ops(ops, results):
             out.append(f"OClear {cname(op['name'])}")
         else:
             raise AssertionError(k)
-    return "[" + ";\n   ".join(out) + "]"
+    return _bind("[" + ";\n   ".join(out) + "]")
+
+
+_BOUND: list = []       # innermost: {Coq expression: let-bound name} while a case term is being assembled
+
+
+def _bind(expr: str) -> str:
+    "a (large) Coq expression written once per case term and referred to by name"
+    if not _BOUND:
+        return expr
+    tab = _BOUND[-1]
+    if expr not in tab:
+        tab[expr] = f"y_{len(tab)}"
+    return tab[expr]
 
 
 def _all_built(obs):
     "every observation of a successfully built/reloaded pipeline, in any process"
     for o in [obs["first"]] + list(obs["others"].values()):
-        for k in ("built", "built2", "clone", "rejson"):
+        for k in ("built", "built2", "clone", "reobj", "rejson", "revalidate"):
             if k in o and o[k].get("err") == 0:
                 yield o[k]
         for r in o.get("reloads", []):
@@ -767,7 +1022,7 @@ def tables(case, obs):
     o = obs["first"]
     if o["built"].get("err") == 0:
         d = json.loads(o["built"]["js_full"])
-        for k in ("clone", "rejson"):
+        for k in ("clone", "reobj", "rejson", "revalidate"):
             if o.get(k, {}).get("err") == 0:
                 d2 = json.loads(o[k]["js_full"])
                 for n, c in d["components"].items():
@@ -809,6 +1064,22 @@ def _with_lits(case, obs_ops, key):
 
 
 def _coq_term(case, obs):
+    _INTERN.append({})
+    _BOUND.append({})
+    try:
+        body = _coq_term_body(case, obs)
+        tab, bound = _INTERN[-1], _BOUND[-1]
+    finally:
+        _INTERN.pop()
+        _BOUND.pop()
+    if body is None:
+        return None
+    lets = "".join(f"let {name} := sb \"{text.replace(chr(34), chr(34) * 2)}\"%bs in\n " for text, name in tab.items())
+    lets += "".join(f"let {name} := {expr} in\n " for expr, name in bound.items())
+    return f"({lets}{body})"
+
+
+def _coq_term_body(case, obs):
     T = tables(case, obs)
     parts = []
     first = obs["first"]
@@ -827,7 +1098,8 @@ def _coq_term(case, obs):
                 codes = clist([r["err"] for op_, r in zip(case[opsk], o[resk]) if op_["op"] != "observe"], cnat)
                 parts.append(f"(let r := case_run T {costr(case.get('name'))} {costr(case.get('version'))}\n  {ops} in\n"
                              f"  agree_ops r {codes} && agree_built (case_build T (fst r)) {c_built(o[bk])}"
-                             + (f" && agree_clone T (fst r) {c_reload(o['clone'])}" if "clone" in o and opsk == "ops" else "") + ")")
+                             + "".join(f" && agree_clone T (fst r) {c_reload(o[k])}" for k in ("clone", "reobj", "rejson", "revalidate")
+                                       if k in o and opsk == "ops") + ")")
         # the same builder observed in the middle of its history: the model of the builder state at that moment
         seen = set()
         for o in procs:
@@ -839,7 +1111,8 @@ def _coq_term(case, obs):
                 if sig in seen:
                     continue
                 seen.add(sig)
-                pre_ops = c_ops(case["ops"][:i], o["ops"][:i])
+                # the history up to this point: a prefix of the whole (let-bound) operation list
+                pre_ops = f"(firstn {sum(1 for x in case['ops'][:i] if x['op'] != 'observe')}%nat {c_ops(case['ops'], o['ops'])})"
                 parts.append(f"(let r := case_run T {costr(case.get('name'))} {costr(case.get('version'))}\n  {pre_ops} in\n"
                              f"  agree_built (case_build T (fst r)) {c_built(c['built'])}"
                              + (f" && agree_clone T (fst r) {c_reload(c['clone'])}" if "clone" in c else "") + ")")
@@ -873,6 +1146,8 @@ def _coq_term(case, obs):
                 continue
             seen.add(sig)
             parts.append(f"agree_reload (case_reload T {c_config(json.loads(text))}) {c_reload(r)}")
+    if case["kind"] == "graph":
+        parts.extend(c_lit_checks(case, obs))
     if not parts:
         return None
     return f"(let T := {T} in\n " + "\n && ".join(parts) + ")"
@@ -937,7 +1212,8 @@ def oracle(case, obs):
             if b2.get("err") != b.get("err") or (not b2.get("err") and (b2["hash"] != b["hash"] or b2["js_ex"] != b["js_ex"])):
                 bad("declaration-order-changes-hash", "the same graph with connections/aliases declared in another order has a different configuration or hash")
         # clone, JSON round trip, builder-level reload: in the same process
-        for k, what in (("clone", "clone()"), ("rejson", "from_config(json)")):
+        for k, what in (("clone", "clone()"), ("reobj", "from_config(the configuration object)"), ("rejson", "from_config(json)"),
+                        ("revalidate", "from_config(model_validate_json(model_dump_json()))")):
             r = o.get(k)
             if r is None:
                 continue
@@ -953,6 +1229,24 @@ def oracle(case, obs):
                 bad(f"{k}-name-version", f"{what} lost the pipeline name or version")
             if r.get("runs") != b.get("runs"):
                 bad(f"{k}-runs-differ", f"{what} returns different results before training: {r.get('runs')} vs {b.get('runs')}")
+        # literal nodes, through the public interface only
+        lc = b.get("literal_checks")
+        if lc:
+            for comp, param, want, got in lc["delivery"][:1]:
+                bad("literal-not-delivered", f"{comp}.{param} was given the literal {want} but its literal node yields {got} (seed {s})")
+            for name, held, meant in lc["faithful"][:1]:
+                bad("literal-json-text-means-another-value", f"literal node {name} holds {held} but the document declares it as JSON, "
+                    f"where it reads {meant}")
+        # the same history with one literal replaced by an equal-looking value of another type
+        b3 = o.get("built3")
+        site = case.get("ops3_site")
+        # (only when the operation that writes the literal succeeded both times: a call that is refused - e.g. wiring an
+        #  input through an alias - fails before it creates the literal node)
+        site_ok = site is not None and "ops2" in o and "ops3" in o and o["ops2"][site]["err"] == 0 and o["ops3"][site] == 0
+        if b3 is not None and site_ok and not b3.get("err") and b3["hash"] == b["hash"]:
+            frm, to = case.get("ops3_change", [None, None])
+            bad("hash-insensitive-to-literal-type", f"replacing the literal {json.dumps(frm)} by {json.dumps(to)} did not change the configuration hash"
+                + (" although the results differ" if b3.get("runs") != b.get("runs") else ""))
         bf = o.get("builder_from_config")
         if bf is not None and (bf["err"] or bf["warn"] or bf["hash"] != b["hash"] or bf["name"] != b["name"] or bf["version"] != b["version"]):
             bad("builder-from-config", f"PipelineBuilder.from_config(json) disagrees: {bf}")
@@ -1076,6 +1370,13 @@ def counters(case, obs):
                 yield f"op-error={r['err']}"
         if case.get("fc_edit"):
             yield "from-config-then-edit=" + case["fc_edit"]["kind"]
+        for _, _, e in lit_sites(case["ops"]):
+            yield "literal=" + lit_kind(e)
+        if case.get("ops3") is not None:
+            yield "literal-type-change=" + lit_kind(case["ops3_change"][0]) + "->" + lit_kind(case["ops3_change"][1])
+        lc = b.get("literal_checks")
+        if lc:
+            yield f"literal-deliveries-checked={min(lc['n'], 4)}"
         for o in case["ops"]:
             yield "op=" + o["op"]
             if o["op"] in ("add", "replace"):
@@ -1090,6 +1391,8 @@ def counters(case, obs):
         yield f"components={min(len(d['components']), 8)}"
         yield f"aliases={len(d['aliases'])}"
         yield f"literals={min(len(d['literals']), 4)}"
+        for l in d["literals"].values():
+            yield "literal-encoding=" + l["encoding"]
         yield f"max-types={max([len(i.get('types') or []) for i in d['inputs']] + [0])}"
         if d["meta"].get("name"):
             yield "named"
